@@ -6,6 +6,7 @@ import Mathlib.Tactic.Ring
 import Mathlib.Tactic.Positivity
 import Mathlib.Tactic.NormNum
 import Mathlib.Analysis.SpecialFunctions.Sqrt
+import Mathlib.Analysis.Real.Pi.Bounds
 /-!
 `Num ℝ` for the C07 (interpolation) proofs: the model of `Model/SpaceInterp.lean` instantiated at
 the real numbers.  What the `ℝ` theorems leave unverified is exactly IEEE rounding of the `Float` run.
